@@ -69,10 +69,28 @@ func nodeConds(cs []rpCond) []corev1.NodeCondition {
 	return out
 }
 
+// Condition lists recur in almost every node of a case; the frequent ones are emitted once as
+// named definitions in the header of each case file (elaborating the literals is what costs time).
+var condNames = map[string]string{}
+var condDefs []string
+
 func gConds(cs []rpCond) string {
-	return kit.GListOf(cs, func(cd rpCond) string {
+	lit := kit.GListOf(cs, func(cd rpCond) string {
 		return fmt.Sprintf("mkCond %s %s %s", kit.GStr(cd.Type), kit.GStr(cd.Status), gTime(condTime(cd)))
 	})
+	if len(cs) == 0 {
+		return lit
+	}
+	if n, ok := condNames[lit]; ok {
+		return n
+	}
+	if len(condNames) >= 400 {
+		return lit
+	}
+	n := fmt.Sprintf("cl%d", len(condNames))
+	condNames[lit] = n
+	condDefs = append(condDefs, fmt.Sprintf("Definition %s : list ncond := %s.", n, lit))
+	return n
 }
 
 func firstCond(cs []rpCond, t string) (rpCond, bool) {
@@ -450,6 +468,26 @@ func runRepair(c *kit.Ctx) {
 	types := []string{"Ready", "BadNode", "DiskPressure"}
 	stats := []string{"True", "False", "Unknown"}
 	allPol := []rpPolicy{bad30, ready10, readyUnk, disk0, {"DiskPressure", "True", 90 * time.Second}, {"BadNode", "Unknown", time.Minute}}
+	// condition lists of the other nodes come from a small shared pool (they only matter through
+	// "matches some policy or not"); the reconciled node's own conditions are fully random
+	var shared [][]rpCond
+	{
+		r := c.Rand.Fork()
+		for k := 0; k < 16; k++ {
+			var out []rpCond
+			for _, t := range types {
+				if r.Chance(1, 6) {
+					continue
+				}
+				cd := rpCond{Type: t, Status: "True", At: int64(r.Range(0, 2400))}
+				if t == "DiskPressure" {
+					cd.Status = "False"
+				}
+				out = append(out, cd)
+			}
+			shared = append(shared, out)
+		}
+	}
 	for i := 0; i < n; i++ {
 		r := c.Rand.Fork()
 		x := baseRepair()
@@ -520,10 +558,10 @@ func runRepair(c *kit.Ctx) {
 			uu = nn
 		}
 		for k := 0; k < nn; k++ {
-			nd := rpNode{Name: fmt.Sprintf("n%02d", k), Pool: kit.Pick(r, []string{"pool", "pool", "pool", "other", ""}), Conds: randConds(false)}
+			nd := rpNode{Name: fmt.Sprintf("n%02d", k), Pool: kit.Pick(r, []string{"pool", "pool", "pool", "other", ""}), Conds: kit.Pick(r, shared)}
 			if k < uu {
 				nd.Pool = "pool"
-				nd.Conds = append([]rpCond{{Type: x.Policies[0].Type, Status: x.Policies[0].Status, At: int64(r.Range(0, 2400))}}, nd.Conds...)
+				nd.Conds = append([]rpCond{{Type: x.Policies[0].Type, Status: x.Policies[0].Status, At: kit.Pick(r, []int64{100, 1500})}}, nd.Conds...)
 			}
 			x.Nodes = append(x.Nodes, nd)
 		}
